@@ -140,6 +140,26 @@ def check(op, args, res):
     if op == "c09":
         return None if res[:1] == ["1"] else "property case failed: %s" % " ".join(args[:2])
     a = [int(x) for x in args]
+    if op == "starkshape":
+        # the property's side of the shape rules: an accepted shape has a Merkle cap and a full set of openings for
+        # every oracle of the STARK (one cap per oracle is what ties the openings to polynomials fixed before zeta)
+        (ch, rb, cols, npis, ul, rc, nlh, nq, nch, ncz, pis, fp, tc, ac, qc, lo, nx, au, aun, czf, qu) = a
+        if res == ["panic"]:
+            return "validate_proof_shape panicked"
+        if res == ["0"]:
+            return None
+        aux = bool(ul or rc)
+        naux = nlh + nch + ncz
+        why = []
+        if (qc >= 0) != (nq != 0): why.append("quotient cap %s but the STARK has %d quotient polynomials" % ("present" if qc >= 0 else "absent", nq))
+        if (qu if qu >= 0 else 0) != nq or (qu >= 0) != (nq != 0): why.append("quotient openings %d for %d quotient polynomials" % (qu, nq))
+        if (ac >= 0) != aux: why.append("auxiliary cap presence %s" % (ac >= 0))
+        if aux and (au != naux or aun != naux): why.append("auxiliary openings %d/%d for %d polynomials" % (au, aun, naux))
+        if not aux and (au >= 0 or aun >= 0 or czf >= 0): why.append("auxiliary openings without auxiliary polynomials")
+        if lo != cols or nx != cols or pis != npis: why.append("trace openings / public inputs of the wrong length")
+        if tc != 1 << ch or (qc >= 0 and qc != 1 << ch) or (ac >= 0 and ac != 1 << ch): why.append("a cap of the wrong length")
+        if fp < 0: why.append("no query round")
+        return None if not why else "shape accepted although " + "; ".join(why)
     if op == "sat":
         rd = Reader(a)
         ncols, npi, cons = read_cs(rd)
